@@ -65,7 +65,9 @@ def length_catalogue(binary, rnd, per_len=2):
               # here is only that the fitting / counting rules are applied to whatever length plain assembly produces)
               "mov word [r8d+r9d*8+0x11223344], 0x1122", "imul r9, [eax+ebx*8+0x11223344], 0x11223344", "shld word [r8d+r9d*8+0x11223344], r10w, 5",
               "add qword [rax+rbx*8+0x11223344], 0x1122334455", "add qword [eax+ebx*8+0x11223344], 0x1122334455", "test qword [r8d+r9d*8+0x11223344], 0x1122334455667788"]
-    alone = corpus.accepted_alone(binary, lines)
+    # relative branches of each kind: their displacement is the operand, so padding in front of them changes nothing about their bytes
+    BRANCHES = ["jmp short 4", "jmp 0x1234", "call -32", "jne long 100", "xbegin 0x7fffffff", "jrcxz -5", "jb 0x7f", "call 0x12345678"]
+    alone = corpus.accepted_alone(binary, lines + BRANCHES)
     by = {}
     for l, h in alone.items():
         if h and not l.startswith(("j", "call", "xbegin", "ret")):
@@ -74,4 +76,7 @@ def length_catalogue(binary, rnd, per_len=2):
     for L, lst in sorted(by.items()):
         lst.sort()
         cat[L] = rnd.sample(lst, min(per_len, len(lst)))
+    for l in BRANCHES:
+        if alone.get(l):
+            cat.setdefault(len(alone[l]) // 2, []).append((l, alone[l]))
     return cat
